@@ -26,4 +26,11 @@ PROPS = {
         "trusted_base": COMMON_TB + ["modelled: tokenizers/utilities/CharReferenceMap.go and CharReferenceInterval.go; the 256-entry table is a List, AddInterval's loop is structural recursion"],
         "assumptions": COMMON_ASSUME + ["AddInterval panics (start > end, or start > 0xFFFE with end >= 0xFFFF) are outside the property; the model flags them and the stream checks the implementation panics on exactly those"],
     },
+    "C14": {
+        "module": "Verif.Props.C14",
+        "rule": "exhaustive: every string of length <= 4 (thorough 6) over {quote, other quote, ASCII letter, 2-/3-/4-byte rune, space, newline} x 4 quote characters (', \", U+00AB, U+201C) x 3 quote states, each as (a) encode then decode then stream read-back, (b) raw decode of arbitrary text (lone quotes, unterminated literals), (c) state tokenization of text starting with the quote; plus random strings up to length 30. Non-trivial = the text contains the quote character.",
+        "explanation": "Theorems: decode(encode v) = v for the generic and the escaping codec for all v and q (C14_decode_encode_generic/_esc, via undoubleQ_doubleQ); decode leaves non-literals unchanged and never lengthens (totality is by construction: the model functions are total and use no partial indexing); C14_token_roundtrip: for the expression/CSV state the encoded form followed by a non-quote is read back as exactly one token with that value, consuming exactly its length, and decodes to the original. The stream compares EncodeString/DecodeString/NextToken of the three Go quote states with the model and checks the round trip directly on the implementation.",
+        "trusted_base": COMMON_TB + ["modelled: GenericQuoteState, ExpressionQuoteState, CsvQuoteState (Encode/Decode/NextToken); strings.ReplaceAll on a one-rune / two-rune pattern is modelled as the rune-list functions doubleQ / undoubleQ"],
+        "assumptions": COMMON_ASSUME,
+    },
 }
